@@ -280,6 +280,14 @@ BlkRowVal(states, m, W, g) ==
     IN  s.dist - Cardinality(rng \cap s.pv) + Cardinality(rng \cap s.mv)
 BlkActiveRows(states, m, W) == Min2(m, Len(states) * W)
 
+\* number of active blocks after every text symbol (the band profile of a search)
+RECURSIVE BlkProfileRec(_, _, _, _, _, _)
+BlkProfileRec(ctx, t, k, W, states, acc) ==
+    IF Len(acc) = Len(t) THEN acc
+    ELSE LET ns == BlkStep(ctx, states, t[Len(acc) + 1], k, W)
+         IN  BlkProfileRec(ctx, t, k, W, ns, Append(acc, Len(ns)))
+BlkProfile(ctx, t, k, W) == BlkProfileRec(ctx, t, k, W, BlkNew(ctx.m, k, W), << >>)
+
 \* --------------------------------------------- column store and traceback (C10)
 \* traceback.rs keeps the computed columns in a vector of R slots used cyclically
 \* (eager API: R = m + min(k,m) + 2; lazy API: R = n + 2). Slot 0 receives a sentinel
